@@ -44,6 +44,17 @@ MANIFEST = {
 def run(ctx):
     for cls in ('cacheutils.LRI', 'cacheutils.LRU'):
         cachestep.check_class(ctx, cls)
+    # T28: the unlink statements of the recency ring are well-formed (own methods and private module-level helpers)
+    from rules import onepass
+    from sa.index import FuncInfo
+    n_sp = 0
+    mod = ctx.program.module('cacheutils')
+    subjects = [m for c in ('cacheutils.LRI', 'cacheutils.LRU') for m in ctx.program.cls(c).members.values() if isinstance(m, FuncInfo)]
+    subjects += [f for nm, f in mod.functions.items() if nm.startswith('_')]
+    for m in subjects:
+        n_sp += onepass.splice_shape(ctx, m)
+    if n_sp == 0:
+        ctx.info('T28: no unlink statement of the form X[a][b] = X[c] in LRI/LRU')
     for r, n in (('T1', 16), ('T2', 20), ('T7', 2), ('T7e', 2), ('T9.count', 4), ('T9.soft', 4), ('T9.onmiss', 2),
                  ('T8.copy', 2), ('T8.copy.src', 2), ('T18', 2), ('T11.count', 6), ('T7.init', 2)):
         ctx.need(r, n)
